@@ -1,5 +1,5 @@
 (* C16 — Trading halt rule: no fills on a stopped market; halt and resume on schedule. *)
-Require Import Pams.Prelude Pams.Match Pams.Market Pams.MarketPost Pams.Sim Pams.SimLift Pams.SimInv Pams.SimProps.
+Require Import Pams.Prelude Pams.Match Pams.Market Pams.MarketPost Pams.Sim Pams.SimLift Pams.SimInv Pams.SimProps Pams.SimHalt.
 From RecordUpdate Require Import RecordSet.
 Import RecordSetNotations.
 Open Scope Z_scope.
@@ -67,3 +67,41 @@ Theorem C16_orders_accepted_while_stopped : forall m ag buy p v ttlv,
   0 <= m_time m -> exists m' r, add_order m ag (m_id m) buy p v ttlv = Ok (m', r).
 Proof. exact orders_accepted_while_stopped. Qed.
 Print Assumptions C16_orders_accepted_while_stopped.
+
+(* ---- whole sessions and runs (configurations with one trading-halt rule) ---- *)
+(* [halt_inv]: event ids are distinct, only the halt rule ever holds a record, and whenever it holds a record naming the current
+   session, matching is switched off for the session and the recorded market is stopped.  It is preserved by every atomic update
+   of a step - consulting agents, accepting orders and cancels, every round with its hooks and callbacks, the before-step hooks
+   (the resume clears the record), the clock - hence by any number of steps of a session: the halted market stays stopped until
+   the rule's own before-step hook lets go of the record (C16_resume_at_step_after says when) or the session ends. *)
+Theorem C16_halt_invariant_preserved_by_a_step : forall s, halt_inv s -> halt_inv (one_step s).
+Proof. exact halt_inv_one_step. Qed.
+Print Assumptions C16_halt_invariant_preserved_by_a_step.
+
+Theorem C16_halted_market_stays_stopped : forall n s, halt_inv s ->
+  forall e mk x, In e (s_events (iterate n s)) -> es_halted e = Some (mk, s_cur (iterate n s)) ->
+    cur_switch (iterate n s) = false /\
+    (find_mkt mk (s_markets (iterate n s)) = Some x -> m_running (mk_m x) = false).
+Proof. exact halted_market_stays_stopped. Qed.
+Print Assumptions C16_halted_market_stays_stopped.
+
+(* the invariant holds in every run: every configuration with distinct event and session ids and one halt rule, every tape, every
+   agent behaviour, every fundamental path *)
+Theorem C16_halt_invariant_in_every_run : forall c tape batches funds,
+  NoDup (map ec_id (c_events c)) -> NoDup (map sc_id (c_sessions c)) -> ~ In (-1) (map sc_id (c_sessions c)) ->
+  (forall e1 e2, In e1 (c_events c) -> In e2 (c_events c) -> is_halt (ec_kind e1) = true -> is_halt (ec_kind e2) = true -> ec_id e1 = ec_id e2) ->
+  halt_inv (run c tape batches funds).
+Proof. exact halt_inv_run. Qed.
+Print Assumptions C16_halt_invariant_in_every_run.
+
+Example C16_run_nonvacuous :
+  let c := mkCfg [mkMC 0 (1#1) (100#1) None 1] [mkAC 0 false (1000#1) [(0, 10)]; mkAC 1 false (1000#1) [(0, 10)]]
+                 [mkSC 0 2 true true 2 1 (0#1)] [mkEC 7 0 true (KHalt [0] (1#100) 5)] in
+  let tape := [TPerm [0; 1]; TPerm [0; 1]; TDraw (1#2); TDraw (1#2); TPerm [0; 1]; TPerm [0; 1]; TDraw (1#2); TDraw (1#2)]%nat in
+  let batches := [(0, [RNew 1 0 0 false (Some (103#1)) 5 None]); (1, [RNew 2 1 0 true (Some (103#1)) 2 None]);
+                  (0, [RNew 3 0 0 false (Some (101#1)) 1 None]); (1, [RNew 4 1 0 true (Some (104#1)) 1 None])] in
+  let funds := [(0, 0, 100#1); (0, 1, 100#1); (0, 2, 100#1)] in
+  let s := run c tape batches funds in
+  ok s = true /\ map es_halted (s_events s) = [Some (0, 0)] /\ s_cur s = 0 /\
+  map (fun x => m_running (mk_m x)) (s_markets s) = [false] /\ cur_switch s = false.
+Proof. exact halt_example. Qed.
